@@ -31,6 +31,7 @@ class GenCfg:
                             'get_size', 'read_text', 'read_binary', 'declare_read']
         self.max_call_depth = 3
         self.spellings = False
+        self.p_qspell = 0.06
         self.__dict__.update(kw)
 
 
@@ -39,6 +40,7 @@ KWARGS_POOL = [{}, {}, {}, {'k': 1}, {'k': 2}, {'j': [1]}]
 
 
 TOOLONG = 'y' * 256
+QSPELL = ['bytes', 'pathlike', 'dslash', 'dot', 'dotdot', 'trail', 'rel']
 
 
 def rand_name(rng, cfg, toolong=False):
@@ -66,7 +68,11 @@ def gen_query(rng, cfg):
     if kind == 'get_size' and rng.random() < 0.6:
         kind = rng.choice(cfg.query_kinds)
     mode = 'H' if rng.random() < cfg.p_hash else 'M'
-    return ['q', kind, rand_path(rng, cfg, allow_root=True), mode]
+    q = ['q', kind, rand_path(rng, cfg, allow_root=True), mode]
+    if rng.random() < cfg.p_qspell:
+        # the same path spelled differently (bytes, PathLike, //, /./, x/../, trailing /, relative)
+        q.append(rng.choice(QSPELL))
+    return q
 
 
 def gen_call_opts(rng, cfg):
